@@ -140,7 +140,9 @@ def lookalikes(tree):
 
 
 def run(spec, ctx):
-    import zope.testrunner.find as ZF
+    import sys
+    core.prepare()
+    ZF = sys.modules['zope.testrunner.find']
     rng = random.Random(spec['seed'] * 31 + 7)
     if spec.get('ext') is not None:
         fssim.materialise(spec['ext'], ctx.scratch, order_rng=rng)
